@@ -45,6 +45,26 @@ struct RowT {
     t.addCol<double>("y", HOFFSET(data, y));
   }
 };
+// a row type with alignment padding (4-byte columns next to 8-byte ones); same logical columns as RowT
+struct RowP {
+  struct data {
+    int k;
+    double x;
+    unsigned u;
+    Index id;
+    char *s;
+    double y;
+  };
+  static void SetupCptTable(CptTable &t) {
+    t.addCol<int>("k", HOFFSET(data, k));
+    t.addCol<double>("x", HOFFSET(data, x));
+    t.addCol<unsigned>("u", HOFFSET(data, u));
+    t.addCol<Index>("id", HOFFSET(data, id));
+    t.addCol<std::string>("s", HOFFSET(data, s));
+    t.addCol<double>("y", HOFFSET(data, y));
+  }
+};
+static_assert(sizeof(RowP::data) > 4 + 8 + 4 + 8 + 8 + 8, "RowP is meant to contain padding");
 struct Row {
   Index id;
   double x;
@@ -90,6 +110,7 @@ struct Val {
   Eigen::MatrixXd m;  // K_MATRIX, K_VECTORXD (n x 1), K_VECTOR3D (3 x 1)
   std::vector<Eigen::Vector3d> vv3;
   std::vector<Row> rows;
+  bool tpadded = false, tcompact = false;  // K_TABLE: row type with padding, compact dataset layout
   std::string segname;
   Index segid = 0;
   std::vector<SiteRow> sites;
@@ -139,7 +160,7 @@ static std::string describe(const Val &v) {
       j.i("rows", v.m.rows()).i("cols", v.m.cols()).raw("colmajor_head_bits", dv(v.m.data(), (size_t)v.m.size()));
       break;
     case K_VEC_VECTOR3D: j.i("size", (long)v.vv3.size()); if (!v.vv3.empty()) j.raw("first_bits", dv(v.vv3[0].data(), 3)); break;
-    case K_TABLE: j.i("rows", (long)v.rows.size()); if (!v.rows.empty()) j.i("row0_id", v.rows[0].id).s("row0_s", clip(v.rows[0].s, 30)).s("row0_x_bits", hexd(v.rows[0].x)); break;
+    case K_TABLE: j.i("rows", (long)v.rows.size()).b("padded_row_type", v.tpadded).b("compact_layout", v.tcompact); if (!v.rows.empty()) j.i("row0_id", v.rows[0].id).s("row0_s", clip(v.rows[0].s, 30)).s("row0_x_bits", hexd(v.rows[0].x)); break;
     case K_SEGMENT: j.s("segname", v.segname).i("segid", v.segid).i("sites", (long)v.sites.size()); break;
   }
   return j.str();
@@ -210,7 +231,17 @@ static void write_val(CheckpointWriter &w, const Val &v, const std::string &name
     case K_VECTOR3D: { Eigen::Vector3d x = v.m; w(x, name); break; }
     case K_VEC_VECTOR3D: w(v.vv3, name); break;
     case K_TABLE: {
-      CptTable t = w.openTable<RowT>(name, v.rows.size());
+      if (v.tpadded) {
+        CptTable t = w.openTable<RowP>(name, v.rows.size(), v.tcompact);
+        std::vector<RowP::data> d(v.rows.size());
+        for (size_t k = 0; k < d.size(); ++k) {
+          const Row &r = v.rows[k];
+          d[k].id = r.id; d[k].x = r.x; d[k].s = const_cast<char *>(r.s.c_str()); d[k].k = r.k; d[k].u = r.u; d[k].y = r.y;
+        }
+        t.write(d);
+        break;
+      }
+      CptTable t = w.openTable<RowT>(name, v.rows.size(), v.tcompact);
       std::vector<RowT::data> d(v.rows.size());
       for (size_t k = 0; k < d.size(); ++k) {
         const Row &r = v.rows[k];
@@ -256,6 +287,19 @@ static Val read_val(CheckpointReader &r, int kind, const std::string &name, bool
     case K_VECTOR3D: { Eigen::Vector3d x = Eigen::Vector3d::Zero(); if (prefill) x = Eigen::Vector3d::Constant(7.5); r(x, name); v.m = x; break; }
     case K_VEC_VECTOR3D: { std::vector<Eigen::Vector3d> x; if (prefill) x.assign(2, Eigen::Vector3d::Constant(7.5)); r(x, name); v.vv3 = x; break; }
     case K_TABLE: {
+      // the file stores named columns: a table may be read through either row type, whichever wrote it
+      static unsigned long nread = 0;
+      if (++nread % 2) {
+        CptTable t = r.openTable<RowP>(name);
+        std::vector<RowP::data> d(t.numRows());
+        if (!d.empty()) t.read(d);
+        for (auto &x : d) {
+          Row row{x.id, x.x, x.s ? std::string(x.s) : std::string(), x.k, x.u, x.y};
+          free(x.s);
+          v.rows.push_back(row);
+        }
+        break;
+      }
       CptTable t = r.openTable<RowT>(name);
       std::vector<RowT::data> d(t.numRows());
       if (!d.empty()) t.read(d);
@@ -410,6 +454,9 @@ static Val gen_val(vfh::Rng &r, int kind, const Val *shape_of = nullptr) {
     case K_VEC_VECTOR3D: { long n = len(shape_of ? shape_of->vv3.size() : 0, 1, 15); for (long k = 0; k < n; ++k) v.vv3.push_back(Eigen::Vector3d(gen_double(r), gen_double(r), gen_double(r))); break; }
     case K_TABLE: {
       long n = len(shape_of ? shape_of->rows.size() : 0, 1, 30);
+      // an existing table is re-opened with the row type and layout it was created with
+      v.tpadded = shape_of ? shape_of->tpadded : r.coin(0.5);
+      v.tcompact = shape_of ? shape_of->tcompact : r.coin(0.4);
       for (long k = 0; k < n; ++k) v.rows.push_back(Row{gen_index(r), gen_double(r), gen_string(r, r.coin(0.05)), gen_int(r), (unsigned)r.next(), gen_double(r)});
       break;
     }
